@@ -279,7 +279,8 @@ def batch(core, mod, prop, seed, n, args, scratch, t0):
             return 2
         if getattr(vmod, "simplify", None) is None and hasattr(mod, "simplify"):
             vmod.simplify = mod.simplify
-        small = core.minimise(vmod, spec, sig, isolated=True, budget=getattr(mod, "SHRINK_BUDGET", 300))
+        budget = 0 if os.environ.get("VERIF_NO_MINIMISE") else getattr(mod, "SHRINK_BUDGET", 300)  # 0: screening runs of tools_mutate.py
+        small = core.minimise(vmod, spec, sig, isolated=True, budget=budget) if budget else spec
         fin = core.execute_isolated(vmod, small, keep_log=10000)
         rdir = os.environ.get("VERIF_REPLAY_DIR") or os.path.join(HERE, "replays")
         os.makedirs(rdir, exist_ok=True)
